@@ -365,9 +365,23 @@ pub fn to_crate_avp(a: &SpecAvp, bits: &dyn Fn(u16) -> Option<MaskBits>) -> Opti
 /// Raw word of a bitmask AVP, observed through the public encoder (the
 /// field is private): last four octets of the 14-octet encoding.
 fn mask_word(a: &AVP) -> u32 {
-    let mut w = VecWriter::new();
-    a.write(&mut w);
-    let d = &w.data;
+    // the Debug rendering shows the private word ("... { data: 192 }") and
+    // involves no encoder; the encoder is the fallback
+    let dbg = format!("{a:?}");
+    if let Some(i) = dbg.find("data: ") {
+        let digits: String = dbg[i + 6..].chars().take_while(|c| c.is_ascii_digit()).collect();
+        if let Ok(v) = digits.parse::<u32>() {
+            return v;
+        }
+    }
+    let d = match crate::core::guard(|| {
+        let mut w = VecWriter::new();
+        a.write(&mut w);
+        w.data
+    }) {
+        Ok(d) => d,
+        Err(_) => return 0xDEAD_BEEF, // the encoder refuses even this (a broken tree)
+    };
     if d.len() < 4 {
         return 0;
     }
